@@ -9,8 +9,25 @@ Init == k = 1
 Next == k <= Len(TLog) /\ k' = k + 1
 In(r, j) == [q |-> r.quarks[j].q, rm |-> r.quarks[j].rm, rq |-> r.quarks[j].rq, nfref |-> r.nfref]
 AllConsistent(r) == \A j \in 1..3 : Consistent(In(r, j))
+(* Further records:                                                                                        *)
+(*  [ev |-> "cross", sq, lin, ...]  the running mass across one matching scale with no evolution: decades of  *)
+(*      |returned ratio of squared masses - zeta_m^2| and of |... - zeta_m| (in units of |zeta_m^2 - 1|)        *)
+(*  [ev |-> "declaw", nf, a2, a3]   decades of the mismatch, per power of L, of the RG law of the logarithms    *)
+(*      of the mass decoupling table (stated in drivers/msbar.py: decoupling_law; the literature decimals of     *)
+(*      the a^3 constants carry 6 digits)                                                                     *)
+CrossVerdict(r) ==
+  IF r.exc # "" THEN "C18:crash-across-a-matching-scale:" \o r.exc
+  ELSE IF r.sq >= 8 THEN "ok"
+  ELSE IF r.lin >= 10 THEN "C18:decoupling-factor-of-the-mass-applied-once-to-its-square"
+  ELSE "C18:mass-across-a-matching-scale-differs-from-the-decoupling-relation"
+LawVerdict(r) ==
+  IF ~r.lead_zero THEN "C18:mass-decoupling-below-second-order"
+  ELSE IF \E q \in 1..Len(r.a2) : r.a2[q] < 9 THEN "C18:decoupling-logarithms-not-rg-invariant:second-order"
+  ELSE IF \E q \in 1..Len(r.a3) : r.a3[q] < 5 THEN "C18:decoupling-logarithms-not-rg-invariant:third-order"
+  ELSE "ok"
 Verdict(r) ==
-  IF r.outcome \notin {"ok", "ValueError"} THEN "C18:crash:" \o r.outcome
+  IF "ev" \in DOMAIN r THEN (IF r.ev = "cross" THEN CrossVerdict(r) ELSE LawVerdict(r))
+  ELSE IF r.outcome \notin {"ok", "ValueError"} THEN "C18:crash:" \o r.outcome
   ELSE IF AllConsistent(r) /\ r.outcome # "ok" THEN "C18:consistent-input-refused"
   ELSE IF ~AllConsistent(r) /\ r.outcome = "ok" THEN "C18:inconsistent-input-accepted"
   ELSE IF r.outcome = "ok" /\ ~r.sorted THEN "C18:masses-not-sorted"
